@@ -1,6 +1,7 @@
 (* Props_C04.v — C04: each peer's view of the wantlist converges to the live queries. lit_ghost = the ghost folds exactly as first written, ref_ghost = with the refinement of 'solicited' that wanted_again forces (a CID wanted anew after this peer delivered it leaves 'told'): the two *_refuted witnesses show the literal reading is false, the *_partial theorems are the strongest true variants; view_sound / view_complete hold at full strength.
    Statements restated verbatim from the proof files and closed by `exact`; nothing else is proved here. *)
 From BS Require Import Bytes Cid Proto Types Wantlist Wantlist_proofs Wantlist_proofs2 Tie_wantlist Tie_consts.
+From BS Require Import Tie_client.   (* tie lemmas: a source edit that changes what they extract breaks this file's closure *)
 Open Scope N_scope.
 
 Theorem C04_view_sound sdh h c :
